@@ -90,6 +90,12 @@ type Bias struct {
 	BufLimit   int // percent of RPCs with an explicit MaxRetryRPCBufferSize
 	// ShortDeadline draws deadlines of 1-5 s so that backoffs often cross them.
 	ShortDeadline bool
+	// Overflow draws policies whose UNCAPPED backoff initial x multiplier^k leaves
+	// the int64 nanosecond range (or float64) at a retry that is reached, while
+	// maxBackoff is ordinary: a huge multiplier (1e10..1e300), or a moderate one
+	// (10..1000) with a chain of up to 24 retries (maxAttempts and
+	// WithMaxCallAttempts raised to 25) and a tiny maxBackoff.
+	Overflow bool
 }
 
 // Biases of the case families.
@@ -97,6 +103,7 @@ var (
 	BiasMixed    = Bias{Throttle: 35, Unary: 35, MinRPC: 1, MaxRPC: 4, Pushback: 25, FailWeight: 48, BufLimit: 35}
 	BiasTiming   = Bias{Throttle: 15, Unary: 70, MinRPC: 1, MaxRPC: 3, Pushback: 40, FailWeight: 72, BufLimit: 5}
 	BiasUnary    = Bias{Throttle: 10, Unary: 100, MinRPC: 1, MaxRPC: 3, Pushback: 35, FailWeight: 75, BufLimit: 5, ShortDeadline: true}
+	BiasOverflow = Bias{Throttle: 0, Unary: 85, MinRPC: 1, MaxRPC: 2, Pushback: 6, FailWeight: 88, BufLimit: 0, Overflow: true}
 	BiasThrottle = Bias{Throttle: 100, Unary: 85, MinRPC: 5, MaxRPC: 14, Pushback: 15, FailWeight: 62, SmallMax: true, BufLimit: 5}
 )
 
@@ -133,6 +140,30 @@ func Gen(rng *rand.Rand, b Bias) Scenario {
 	if rng.Intn(2) == 0 {
 		sc.Cfg.MaxCallAttempts = pick(rng, 1, 2, 2, 3, 3, 4, 5, 6)
 	}
+	if b.Overflow {
+		p := sc.Cfg.Policy
+		if p == nil {
+			p = &Policy{Codes: []int{int(codes.Unavailable)}}
+			sc.Cfg.Policy = p
+		}
+		if rng.Intn(2) == 0 {
+			// huge multiplier: overflows at k = 1 or 2
+			p.Mult = pick(rng, 1e10, 1e12, 1e12, 1e15, 1e19, 1e100, 1e300)
+			p.InitialMs = pick(rng, 1, 100, 100, 1000, 2500)
+			p.MaxMs = pick(rng, 5, 50, 400, 1000, 3000)
+			p.MaxAttempts = 3 + rng.Intn(5)
+			sc.Cfg.MaxCallAttempts = pick(rng, 0, 5, 6, 7)
+		} else {
+			// long chain: initial x mult^k crosses 2^63 ns somewhere in the chain
+			p.Mult = pick[float64](rng, 10, 10, 30, 100, 1000)
+			p.InitialMs = pick(rng, 100, 1000, 2500)
+			p.MaxMs = pick(rng, 1, 3, 7, 20)
+			p.MaxAttempts = 25
+			sc.Cfg.MaxCallAttempts = 25
+		}
+	} else if sc.Cfg.Policy != nil && rng.Intn(40) == 0 {
+		sc.Cfg.Policy.Mult = pick(rng, 1e12, 1e19, 1e300) // also in the ordinary families, rarely
+	}
 	if rng.Intn(100) < b.Throttle {
 		t := &Throttle{}
 		if b.SmallMax {
@@ -157,6 +188,9 @@ func genRPC(rng *rand.Rand, b Bias, cfg *Config) RPC {
 	r := RPC{BufLimit: -1, DeadlineMs: pick(rng, 1000, 2000, 5000, 5000, 12000, 20000, 60000)}
 	if b.ShortDeadline {
 		r.DeadlineMs = pick(rng, 1000, 1500, 2000, 3000, 5000)
+	}
+	if b.Overflow {
+		r.DeadlineMs = pick(rng, 20000, 60000, 60000)
 	}
 	var sizes []int
 	switch x := rng.Intn(100); {
@@ -221,7 +255,11 @@ func genRPC(rng *rand.Rand, b Bias, cfg *Config) RPC {
 	}
 	nm := len(sizes)
 	// server plan
-	for w := 0; w < 9; w++ {
+	planLen := 9
+	if b.Overflow {
+		planLen = 26
+	}
+	for w := 0; w < planLen; w++ {
 		var a Att
 		switch x := rng.Intn(10); {
 		case x < 3:
